@@ -154,7 +154,10 @@ theorem toyCipherBij (blk : toyPrims.CSt → Nat) : CipherBij toyPrims blk toyPa
     cases h
     exact toyXorFrom_invol _ _ _
 
-theorem toyMac_length (k m : Bytes) : (toyMac k m).length = 64 := by simp [toyMac]
+theorem toyHashK_length (k m : Bytes) : (toyHashK k m).length = 64 := by simp [toyHashK]
+
+theorem toyMac_length (k m : Bytes) : (toyMac k m).length = 64 := by
+  unfold toyMac; exact toyHashK_length _ _
 
 theorem toyMacOk (mk : Bytes) (n : Nat) (h : n ≤ 64) : MacOk toyPrims mk n := by
   intro m
@@ -163,7 +166,7 @@ theorem toyMacOk (mk : Bytes) (n : Nat) (h : n ≤ 64) : MacOk toyPrims mk n := 
   omega
 
 theorem toySeal_length (k : Nat) (iv pt aad : Bytes) : (toySeal k iv pt aad).length = pt.length + 16 := by
-  simp [toySeal, toyXorFrom_length, toyMac_length]
+  simp [toySeal, toyXorFrom_length, toyHashK_length]
 
 theorem toyUnseal_seal (k : Nat) (iv pt aad : Bytes) : toyUnseal k iv (toySeal k iv pt aad) aad = some pt := by
   unfold toyUnseal
